@@ -455,6 +455,12 @@ theorem indices_axis0 : ∀ (n j : Nat), j < n → blockOf (List.replicate n 1) 
     simp only [this, if_false, Nat.add_sub_cancel]
     rw [indices_axis0 n j (by omega)]; rfl
 
+/-- **full_den** (`ones` / `zeros` / `full` and their `*_like` variants, dask/array/wrap.py): every block is the fill
+    value broadcast to its chunk shape (`ArrayChunkShapeDep`), i.e. the grid of the *constant* function of the index —
+    every position of the assembled array holds the fill value, for every chunking. -/
+theorem full_den {α} (fill : α) (chunks : List (List Nat)) (p : List Nat) (h : InRange chunks p) :
+    gridRead (fun _ => fill) chunks p = some fill := grid_den _ chunks p h
+
 example : gridRead weightedSum [[2, 1], [1, 3]] [2, 3] = some 8 := by decide
 example : InRange [[2, 1], [1, 3]] [2, 3] := ⟨by decide, by decide, trivial⟩
 
